@@ -3,6 +3,8 @@ package srvlab
 import (
 	"bytes"
 	"fmt"
+	"sort"
+	"strings"
 	"time"
 
 	"verif/core"
@@ -48,10 +50,119 @@ func c13Cases(tier string, seed int64) []core.Case {
 			}
 		}
 	}
+	for _, dotu := range []bool{true, false} {
+		dotu := dotu
+		cases = append(cases, core.Case{ID: fmt.Sprintf("server/renegotiating-stream/dotu=%v", dotu), Run: func(ctx *core.Ctx) core.Result {
+			return c13Renegotiate(ctx, dotu)
+		}})
+	}
 	for _, f := range ExtraC13 {
 		cases = append(cases, f(tier, seed)...)
 	}
 	return cases
+}
+
+// c13Renegotiate: a stream that itself changes the rules of framing — a Tversion lowering msize, followed by frames
+// that are legal under the old limit and oversized under the new one, and by ordinary requests — is delivered in one
+// segment, one message per segment, one byte per segment and with cuts inside each message. What the server executes,
+// what it answers (the Rversion apart, which may or may not get out before the connection is dropped) and whether it
+// keeps the connection must be the same for every segmentation.
+func c13Renegotiate(ctx *core.Ctx, dotu bool) core.Result {
+	var res core.Result
+	ver := "9P2000"
+	if dotu {
+		ver = "9P2000.u"
+	}
+	type variant struct {
+		srv, neg uint32
+		big      int // size of the frame behind the Tversion
+	}
+	variants := []variant{{8192, 256, 330}, {8192, 64, 65}, {4096, 1024, 4096}, {8192, 256, 200}, {1024, 128, 129}, {8192, 4096, 4097}}
+	for vi, v := range variants {
+		tv := wire.Encode(&wire.Msg{Type: wire.Tversion, Tag: wire.NOTAG, Msize: v.neg, Version: ver}, dotu)
+		base := len(wire.Encode(&wire.Msg{Type: wire.Tattach, Tag: 1, Fid: 0, Afid: wire.NOFID, Uname: "root", Nuname: 0, Aname: ""}, dotu))
+		att := wire.Encode(&wire.Msg{Type: wire.Tattach, Tag: 1, Fid: 0, Afid: wire.NOFID, Uname: "root", Nuname: 0, Aname: strings.Repeat("a", v.big-base)}, dotu)
+		// the requests behind it do not depend on one another (they run concurrently): a flush of an unknown tag, a
+		// clunk of an unknown fid
+		st := wire.Encode(&wire.Msg{Type: wire.Tflush, Tag: 2, Oldtag: 999}, dotu)
+		cl := wire.Encode(&wire.Msg{Type: wire.Tclunk, Tag: 3, Fid: 77}, dotu)
+		frames := [][]byte{tv, att, st, cl}
+		var stream []byte
+		var bounds []int
+		for _, f := range frames {
+			stream = append(stream, f...)
+			bounds = append(bounds, len(stream))
+		}
+		segs := map[string][]int{"one-segment": nil, "per-message": bounds[:len(bounds)-1]}
+		var per []int
+		for i := 1; i < len(stream); i++ {
+			per = append(per, i)
+		}
+		segs["per-byte"] = per
+		segs["cut-inside-tversion"] = []int{len(tv) / 2}
+		segs["cut-after-tversion-size-prefix"] = []int{len(tv) + 2}
+		segs["cut-inside-second"] = []int{len(tv) + len(att)/2}
+		segs["tversion+prefix-of-second"] = []int{len(tv) + 5}
+		segs["two-messages-then-rest"] = []int{len(tv) + len(att)}
+		names := []string{"per-message", "one-segment", "per-byte", "cut-inside-tversion", "cut-after-tversion-size-prefix", "cut-inside-second", "tversion+prefix-of-second", "two-messages-then-rest"}
+		ref := ""
+		for _, name := range names {
+			ctx.Beat()
+			s := NewSess(Config{Dotu: dotu, Msize: v.srv})
+			c := s.Dial()
+			seq0 := s.Log.Seq()
+			prev := 0
+			for _, cut := range segs[name] {
+				_ = c.SendRaw(stream[prev:cut])
+				prev = cut
+			}
+			_ = c.SendRaw(stream[prev:])
+			// the outcome is final when the server dropped the connection, or consumed everything and went idle
+			waitFor(W, func() bool { return c.Closed() != nil || (c.SrvE.ReaderIdle() && c.Quiesce(time.Millisecond)) })
+			closed := c.WaitClosed(50 * time.Millisecond)
+			if !closed {
+				c.Quiesce(W)
+			}
+			var tr []string
+			for _, r := range c.All() {
+				switch {
+				case r.Msg == nil:
+					tr = append(tr, "undecodable")
+				case r.Msg.Type == wire.Rversion:
+				default:
+					tr = append(tr, fmt.Sprintf("%s/tag%d", wire.TypeName(r.Msg.Type), r.Msg.Tag))
+				}
+			}
+			sort.Strings(tr)
+			var ops []string
+			for _, e := range s.Log.Snapshot(seq0) {
+				if e.Kind == "op" && e.Conn == c.ID {
+					ops = append(ops, e.Op)
+				}
+			}
+			sort.Strings(ops)
+			got := fmt.Sprintf("executed=%v replies=%v dropped=%v", ops, tr, closed)
+			c.Hangup()
+			res.Evals++
+			res.Sig(fmt.Sprintf("renegotiate|%d|%s|%v", vi, name, dotu))
+			if ref == "" {
+				ref = got
+				if vi == 0 {
+					res.Sample(map[string]interface{}{"server_msize": v.srv, "negotiated": v.neg, "frame_behind_tversion": v.big, "outcome": got})
+				}
+				continue
+			}
+			if got != ref {
+				res.Violate("C13;renegotiating-stream;"+name, fmt.Sprintf("the same byte stream (Tversion to msize %d, then a %d-byte frame, then two requests; server msize %d) gives {%s} delivered %s and {%s} delivered one message per segment", v.neg, v.big, v.srv, got, name, ref),
+					map[string]interface{}{"variant": vi, "dotu": dotu})
+				break
+			}
+		}
+		if len(res.Violations) > 0 {
+			break
+		}
+	}
+	return res
 }
 
 type c13frame struct {
